@@ -73,6 +73,12 @@ pub fn op_key(g: &str, rule: &str, entry: Entry, form: Form, a: usize, b: usize,
     format!("{g}|{rule}|{}|{}|{a}|{b}|{text}", entry.name(), form.name())
 }
 
+/// What must not change when generation options change: verdict, consumed offset, pair tree.
+pub fn sem_hash(o: &Obs) -> u64 {
+    let s = format!("{}|{:?}|{:?}", o.ok, o.offset, o.tokens);
+    fnv(s.as_bytes(), FNV0)
+}
+
 pub fn obs_hash(o: &Obs) -> u64 {
     let s = format!("{:?}", o);
     fnv(s.as_bytes(), FNV0)
@@ -245,7 +251,7 @@ pub fn execute(sc: &Scenario, grammars: &[Grammar], verbose: bool) -> Report {
                 let kh = fnv(rec.key.as_bytes(), FNV0);
                 let oh = obs_hash(&r.obs);
                 let _ = kh;
-                lines.push(format!("OP {id} {oh:016x} {} {prefix:016x} {} {}", r.obs.ok as u8, nontrivial as u8, serde_json::Value::String(rec.key.clone())));
+                lines.push(format!("OP {id} {oh:016x} {:016x} {} {prefix:016x} {} {}", sem_hash(&r.obs), r.obs.ok as u8, nontrivial as u8, serde_json::Value::String(rec.key.clone())));
                 if verbose {
                     lines.push(format!("OBS {id} {}", json!({"key": rec.key, "ok": r.obs.ok, "offset": r.obs.offset, "debug": r.obs.debug, "tokens": r.obs.tokens, "err": r.obs.err})));
                 }
